@@ -35,6 +35,6 @@ func TestCheck(t *testing.T) {
 			"where the properties do not fix a response (prewrite above a foreign rollback/lock-only record, commit of a never-prewritten key, BatchRollback/CheckTxnStatus error details) the model follows the observed response and only the resulting state is compared",
 		},
 	}
-	pbt.Add(s, &pbt.Spec[perco.GCase]{Name: "outcomes", Gen: gen, Run: run, Quick: 1200, Thorough: 48000, Shards: 16})
+	pbt.Add(s, &pbt.Spec[perco.GCase]{Name: "outcomes", Gen: gen, Run: run, Quick: 1200, Thorough: 36000, Shards: 16})
 	s.Main(t)
 }
